@@ -464,6 +464,26 @@ theorem C06_refused_recipient_reaches_no_target (o : Ord) (ho : o.fair) (cfg : C
     · exact h
     · rw [(start_frame idOrd cfg).2.1] at ht0; cases ht0
 
+/-- Round 10: a destination block one of whose checks cannot create its state object for the message
+(`MFaults.withDeadBlocks`) takes no recipient: every RCPT command routed to it is refused and no
+recipient routed to it reaches a target. -/
+theorem C06_dead_block_takes_no_recipient (o : Ord) (ho : o.fair) (cfg : Cfg) (mf : MFaults) (dead : Nat → Bool)
+    (hm : cfg.mf = mf.withDeadBlocks cfg.route dead) (m : Mode) (rs : List Rcpt) :
+    (∀ x ∈ (run o cfg m rs).rcpts, dead (cfg.route x.1) = true → x.2 = true) ∧
+    (∀ t ∈ (run o cfg m rs).final.deliveries, ∀ y ∈ t.2, dead (cfg.route y) = false) := by
+  have h1 : ∀ x ∈ (run o cfg m rs).rcpts, dead (cfg.route x.1) = true → x.2 = true := by
+    intro x hx hd
+    refine (C06_rcpt_refused_iff o ho cfg m rs x hx).mpr (Or.inr ?_)
+    simp [MFaults.rcptAny, hm, MFaults.withDeadBlocks, hd]
+  refine ⟨h1, ?_⟩
+  intro t ht y hy
+  obtain ⟨x, hx, hxy, hacc⟩ := C06_refused_recipient_reaches_no_target o ho cfg m rs t ht y hy
+  cases hd : dead (cfg.route y) with
+  | false => rfl
+  | true =>
+    have h2 := h1 x hx (by rw [hxy]; exact hd)
+    rw [hacc] at h2; cases h2
+
 theorem why_chain (b1 b2 b3 : Bool) :
     ((if b1 then some Why.check else if b2 then some Why.dmarc else if b3 then some Why.modifier else none)
         = some Why.check ↔ b1 = true) ∧
@@ -1471,5 +1491,13 @@ example : ∃ (w : World) (p : Pol) (sp : Option Pol) (lo : List Txt), w.fromIsO
     w.atOrg = .recs lo ∧ dmarcRecords lo = [(p, sp)] ∧ w.aligned = false :=
   ⟨⟨false, .recs [.stray], .recs [.stray, .policy .reject none], false⟩, .reject, none, _, rfl,
     Or.inr ⟨_, rfl, rfl⟩, rfl, rfl, rfl⟩
+
+/-- Non-vacuity of `C06_dead_block_takes_no_recipient`: block 1 of `exCfg` dead, recipient 2 (routed to it) is
+refused, recipient 1 is not. -/
+example : let cfg : Cfg := { exCfg with mf := MFaults.none.withDeadBlocks exCfg.route (fun b => b == 1) }
+    cfg.mf = MFaults.none.withDeadBlocks cfg.route (fun b => b == 1) ∧
+    (run idOrd cfg .smtp [1, 2]).rcpts = [(1, false), (2, true)] ∧
+    delivered .smtp (run idOrd cfg .smtp [1, 2]) = [1] := by
+  refine ⟨rfl, ?_, ?_⟩ <;> decide
 
 end MaddyVerif.C06
